@@ -194,6 +194,29 @@ pub struct Exec<'a> {
 struct ExecPtr(*mut ());
 unsafe impl Send for ExecPtr {}
 
+static C05_VICTIM: std::sync::atomic::AtomicU64 = std::sync::atomic::AtomicU64::new(0);
+static C05_RING: std::sync::atomic::AtomicI32 = std::sync::atomic::AtomicI32::new(-1);
+
+/// Called by a10 (cfg a10_verif) at its scheduling points while the C05
+/// check runs Ring::poll: the kernel re-uses every slot outside the published
+/// [head, tail) at any time (K4).
+fn c05_head_store_adversary(_point: a10::verif::Point, _addr: usize) {
+    // Not only after the hooked head store: at every scheduling point inside
+    // Ring::poll (each completion locks its operation), so that a head
+    // published by any other store is honoured by the kernel as well.
+    let _scope = track::scope(track::TAG_HARNESS);
+    let fd = C05_RING.load(std::sync::atomic::Ordering::SeqCst);
+    let victim = C05_VICTIM.load(std::sync::atomic::Ordering::SeqCst);
+    let mut s = sim::sim();
+    if let Some(ring) = s.ring(fd) {
+        if victim >= 4 {
+            ring.scribble_unpublished(Cqe { user_data: victim, res: 0x7A7A_7A7A, flags: 0 });
+        } else {
+            ring.poison_unpublished(0);
+        }
+    }
+}
+
 const SIG_PANIC: &str = "panic";
 
 impl<'a> Exec<'a> {
@@ -1018,12 +1041,23 @@ impl<'a> Exec<'a> {
             }
         });
         sim::sim().enter_hook = Some(hook);
+        if self.oracles.c05 {
+            // K4 adversary: the moment a10 publishes a new CQ head, the
+            // kernel overwrites every slot outside [head, tail).
+            let victim = self.ops.iter().find(|o| o.phase == Phase::Submitted && !o.final_consumed && o.user_data >= 4).map_or(0, |o| o.user_data);
+            C05_VICTIM.store(victim, std::sync::atomic::Ordering::SeqCst);
+            C05_RING.store(self.world.ring_fd, std::sync::atomic::Ordering::SeqCst);
+            a10::verif::install_point(Some(c05_head_store_adversary));
+        }
         let deliverable = cq_tail_before != cq_head_before || !inline.is_empty();
         let timeout = if block && deliverable { None } else { Some(Duration::ZERO) };
         if timeout.is_none() {
             self.feat("poll-blocking");
         }
         let r = catch(|| self.world.poll_ring(timeout));
+        if self.oracles.c05 {
+            a10::verif::install_point(None);
+        }
         sim::sim().enter_hook = None;
         self.sync_events();
         match r {
